@@ -671,6 +671,11 @@ func (ul *UploadList) Info() storage.UploadInfo {
 
 // Err returns the error state of the query.
 func (ul *UploadList) Err() error {
+	if ul.err == io.EOF {
+		// The query cannot match anything (e.g. key:a key:b);
+		// like Query.Err, report that as an empty result.
+		return nil
+	}
 	return ul.err
 }
 
